@@ -9,15 +9,16 @@ import (
 func init() {
 	register(&Property{
 		ID:    "C14",
-		Rules: []string{"C14-R1", "C14-R2", "C14-R3", "C14-R4", "C14-R5", "C06-R7"},
+		Rules: []string{"C14-R1", "C14-R2", "C14-R3", "C14-R4", "C14-R5", "C14-R6", "C06-R7"},
 		Explain: "C14-R1 one date layout governs parsing and printing of log days: every layout operand of time.Parse and Time.Format in the tree derives (field-based value flow) from the date-format flag, the configuration file and the default; the only constant-only layout is the ISO layout of CSV rows; " +
 			"C14-R2 what the printer writes the parser strips: the constant formats of PrintReporter.Process are split into literal runs and verbs and compared with the tokenizer's own trim sets and splitter (heading, entry, note and terminator lines); C14-R3 notes print the parsed pair untransformed; C14-R4 duplicates of a day are merged by name (existing name: += on its own slot, new name: appended); " +
-			"C14-R5 every printf format of package print is built from constants (a note or a name is an argument, never part of the format); C06-R7 (shared) nothing converts a heading's date to the process time zone between reading and printing.",
+			"C14-R5 every printf format of package print is built from constants (a note or a name is an argument, never part of the format); C14-R6 when Options.Load succeeds the reporters' date layout equals the layout the log is parsed with as it stands at the end of Load (the copy is not taken before --date-format is applied); C06-R7 (shared) nothing converts a heading's date to the process time zone between reading and printing.",
 		NotDecided: "byte-for-byte idempotence, rounding to two decimals, names that end in characters of the trim sets",
 		Run: func(c *core.Ctx) {
 			ruleDateLayouts(c, "C14-R1")
 			rulePrintForm(c, "C14-R2", "C14-R3")
 			ruleZoneAPIs(c, "C06-R7")
+			ruleReporterDateFormat(c, "C14-R6")
 			ruleConstFormats(c, "C14-R5", func(fn *ssa.Function) bool { return inPkgs(fn, core.CmdPath+"/internal/print") })
 			if fn := c.P.LookupFunc(core.LibPath, "NewLogNodeFromElements"); requireAnchor(c, "C14-R4", "NewLogNodeFromElements", fn != nil) {
 				ruleMergeByName(c, "C14-R4", fn, false)
